@@ -70,7 +70,7 @@ class C13(Check):
     # ------------------------------------------------------------------
     def gen(self, rng, tier, idx):
         src_kind = rng.choice(["file", "file", "sharded", "http_flat",
-                               "http_sharded"])
+                               "http_deep", "http_sharded"])
         dst_kind = rng.choice(["file", "file", "sharded"])
         enc = rng.choice(["raw", "raw", "compressed_segmentation"])
         dtype = (rng.choice(["uint32", "uint64"])
@@ -160,7 +160,8 @@ class C13(Check):
                     acc = get_accessor_for_url(SRC)
                     pio = precomputed_io.get_IO_for_existing_dataset(acc)
                 else:
-                    flat = scn["sflat"] or scn["src_kind"] == "http_flat"
+                    flat = (scn["sflat"] and scn["src_kind"] != "http_deep"
+                            ) or scn["src_kind"] == "http_flat"
                     gz = scn["sgzip"]
                     acc = get_accessor_for_url(SRC, {"flat": flat,
                                                      "gzip": gz})
@@ -203,6 +204,8 @@ class C13(Check):
             mode = "plain"
             if scn["src_kind"] == "http_flat" and scn["sgzip"]:
                 mode = "gzstatic"
+            if scn["src_kind"] == "http_deep":
+                mode = "nginx"      # the documented rule set for deep layout
             server = SimServer(fs, SRC, "/ds/", mode, "416", log)
             log.add("ARGV", argv)
             with serving(server):
